@@ -3,10 +3,35 @@ package sim
 import (
 	"bufio"
 	"encoding/json"
+	"fmt"
 	"os"
+	"runtime"
 	"sort"
 	"sync"
+	"sync/atomic"
+	"time"
 )
+
+var lastActivity int64 = time.Now().UnixNano()
+
+// Touch records driver progress for the watchdog.
+func Touch() { atomic.StoreInt64(&lastActivity, time.Now().UnixNano()) }
+
+// Watchdog ends the process (exit code 4, all goroutine stacks on stderr) when no trace event has been
+// recorded for d: a stuck driver must not turn into a check that never returns.
+func Watchdog(d time.Duration) {
+	go func() {
+		for {
+			time.Sleep(time.Second)
+			if time.Since(time.Unix(0, atomic.LoadInt64(&lastActivity))) > d {
+				buf := make([]byte, 1<<20)
+				n := runtime.Stack(buf, true)
+				fmt.Fprintf(os.Stderr, "DRIVER-STALL: no progress for %v\n%s\n", d, buf[:n])
+				os.Exit(4)
+			}
+		}
+	}()
+}
 
 // M is one trace event.
 type M = map[string]any
@@ -46,6 +71,7 @@ func (t *Trace) Emit(m M) {
 }
 
 func (t *Trace) emitLocked(m M) {
+	Touch()
 	b, err := json.Marshal(m)
 	if err != nil {
 		panic(err)
@@ -59,6 +85,7 @@ func (t *Trace) emitLocked(m M) {
 }
 
 func (t *Trace) Buf(seq uint64, m M) {
+	Touch()
 	t.mu.Lock()
 	defer t.mu.Unlock()
 	t.buf = append(t.buf, seqRec{seq, m})
